@@ -158,3 +158,10 @@ def ssum_congr_axiom():
     return [z3.ForAll([a, b, n], z3.Implies(
         z3.ForAll([i], z3.Implies(z3.And(i >= 0, i < n), a[i] == b[i])), ssum(a, n) == ssum(b, n)),
         patterns=[z3.MultiPattern(ssum(a, n), ssum(b, n))])]
+
+
+def msum_empty_dom(dt, dom, val):
+    """Lean: msum_empty: a sum over an empty key set is 0 (whatever the value array)"""
+    USED.add('msum_empty')
+    k = z3.Const('me!k', dt.k.sort())
+    return [z3.Implies(z3.ForAll([k], z3.Not(dom[k])), msum_fn(dt)(dom, val) == 0)]
